@@ -21,6 +21,8 @@ Clause(e) ==
                                 ELSE IF ~LawKeyNotes(e.in.k, e.out[1]) THEN "key-notes"
                                 ELSE IF e.out[2] # e.out[1] THEN "key-notes-memo" ELSE "ok")
          ELSE (IF Raised(e, "NoteFormatError") THEN "ok" ELSE "reject-unknown-key")
+    [] e.op = "get_notes_after" ->      \* get_notes(k2) asked right after get_notes(k1) in a fresh interpreter
+         IF e.ok /\ LawKeyNotes(e.in.k2, e.out) THEN "ok" ELSE "key-notes-after-another-key"
     [] e.op = "relative_major" ->
          IF IsKey(e.in.k) /\ IsMinor(e.in.k) THEN (IF e.ok /\ e.out = MajorKey(Sig(e.in.k)) THEN "ok" ELSE "relative-major")
          ELSE (IF Raised(e, "NoteFormatError") THEN "ok" ELSE "reject-unknown-key")
